@@ -213,6 +213,14 @@ def run(ctx, rep, model=True):
             spec["coord_sys"] = [1, 2][(i // 4) % 2]; rep.count(f"coordinate-system:{spec['coord_sys']}")
         if i % 3 == 1 and len(spec["levels"]) >= 2:
             spec["subcycle"] = True; spec["step"] = [3, 7, 20][(i // 3) % 3]; rep.count("per-level-steps-differ")
+        # names of the level directories as the Header records them (the prefix and the digits are the writer's choice), and
+        # the ghost-cell line of the level headers in its per-direction form
+        if i % 5 == 2:
+            spec["level_dir"] = ["Lev_{lv}", "Level_{lv:02d}", "L{lv}"][(i // 5) % 3]; rep.count("level-directories-not-named-Level_n")
+        if i % 4 == 2:
+            spec["ghost_line"] = "(" + ",".join(["1", "1", "0"][: spec["ndims"]]) + ")"; rep.count("ghost-line-per-direction")
+        elif i % 4 == 3:
+            spec["ghost_line"] = "2"
         run_spec(ctx, rep, spec, model)
         if i % 6 == 5:
             other = plotgen.random_spec(ctx.rng, ndims=spec["ndims"], nlev=[2, 3, 1][i % 3], nf=len(spec["fields"]), data="smallint", B=2)
